@@ -16,7 +16,7 @@ from vplib.common import VERIF
 
 MANIFEST = dict(
     category="proof",
-    text="partial. Coq theorems on the executable model of check_type_relation (both modes, mirrors /repo with the fix: commits for F7, F12, F25p, F26, F29, F55, F56) and of the registry: compat_sound_partial (is_compatible => containment of values, on the cycle-free fragment: no Cycle/Variable reachable, for every model variant that retracts failed assumptions), compat_refl (outright), compat_trans_partial (is_compatible is transitive on the cycle-free fragment: check_rel is shown to compute exactly a reference relation, which is transitive), overlap_complete_partial (a `false` of types_overlap proves disjointness, first-order cycle-free fragment), registry monotonicity (register_type/register_tuple only append; meaning of existing ids preserved for first-order values); refutation witnesses (vm_compute) for the findings as found (F7, F12, F25p, F29) with the repaired answers pinned, and for the open findings F23, F25. NOT proved (validated only): compat_sound / compat_trans / overlap_complete on the recursive fragment, intersect_keeps / complement_keeps (oracle only). Every run ties the model to the code by differential execution on generated type graphs (returned ids, booleans, full registry dumps after intersect/complement; targeted templates for shared components under same-name tuple variants and for partials against recursive unions) and judges the REAL functions' answers against the value semantics of Sem.v by exhaustive value enumeration to depth 3 (soundness, overlap completeness, intersect/complement keep values, reflexivity/transitivity).",
+    text="partial. Coq theorems (props/C09.v, 24 obligations) on the executable model of check_type_relation (both modes), of the registry and of the narrowing primitives, which mirrors /repo (fix: commits for F7, F12, F25p, F26, F29, F55, F56 included). PROVED for every registry: compat_sound_partial (is_compatible => containment of values on the cycle-free fragment incl. partial, callable and process types), compat_refl (outright), compat_trans_partial (transitivity on the cycle-free fragment: check_rel computes exactly a transitive reference relation), overlap_complete_partial (a `false` of types_overlap proves disjointness; first-order cycle-free fragment), intersect_keeps_partial and complement_keeps_partial (intersect_types / compute_complement never drop a value that can occur, for first-order cycle-free operands, with the registry after the call extending the one before; complement additionally needs a well-formed registry), filter_keeps_partial (filter_variants_by_field WITH the proposed overlap test keeps every value whose tested field passed), registry monotonicity. REFUTED by vm_compute witnesses replayed on the real code: the findings as found (F7, F12, F25p, F29; repaired answers pinned), the open findings F23 (compat_sound on recursive types with shared open subterms), F24 (complement on recursive unions), F25 (overlap/intersect of callable types), and filter_variants_by_field as it is in /repo (drops A[x: int|bin] after `.x ='int` succeeded). NOT proved: compat_sound / compat_trans / overlap_complete / the narrowing theorems on the RECURSIVE fragment (validated only). Every run ties the model to the code by differential execution on generated type graphs (returned ids, booleans, full registry dumps after intersect / complement / filter / union_type_ids; targeted templates) and judges the REAL functions' answers against the value semantics of Sem.v by exhaustive value enumeration to depth 3 (soundness, overlap completeness, intersect / complement / filter keep values, reflexivity / transitivity).",
     design_ref="§5 C09",
     note="Trusted: Coq kernel, extraction, OCaml driver, Rust harness, generator. The oracle's enumeration is over a small atom universe (one int, one bin, one ref; registered tuple shapes; registered closed callable/process types as function/process values); a dangling Cycle in a RESULT of narrowing is read as `any`, as the code base reads it. Known findings F23-F26 are matched by structural signature only; a failure in the cycle-free first-order fragment is always a violation.",
     technique="Coq proof on an executable model + model/code correspondence + semantic oracle by bounded exhaustive enumeration",
@@ -353,7 +353,39 @@ def gen_partial_vs_recursive_case(rng):
     return reg, out, feat
 
 
-TEMPLATES = {"shared": gen_shared_component_case, "partial_rec": gen_partial_vs_recursive_case}
+def gen_filter_case(rng):
+    """filter_variants_by_field: a union of tuple variants whose field at one index has types of different
+    width (leaf, union of leaves, nested tuple), filtered by a type that some of them merely overlap."""
+    reg = Reg()
+    g = Gen(rng, reg, PROFILES[rng.choice(["fo_nocycle", "fo_nocycle", "fo", "partial"])])
+    leaves = [reg.ty(("int",)), reg.ty(("bin",)), reg.ty(("ref",)), reg.ty(("tuple", reg.tu(2, [])))]
+    def field_type():
+        r = rng.random()
+        if r < 0.35:
+            return rng.choice(leaves)
+        if r < 0.8:
+            return reg.ty(("union", tuple(rng.sample(leaves, rng.choice([2, 2, 3])))))
+        return g.gen(1, [])
+    idx = rng.choice([0, 0, 1])
+    nvar = rng.choice([2, 2, 3])
+    variants = []
+    for k in range(nvar):
+        name = rng.choice([0, 1, None]) if rng.random() < 0.6 else k
+        lab = rng.choice([None, 0])
+        fs = [(lab, field_type())] + ([(None if lab is None else 1, field_type())] if idx == 1 or rng.random() < 0.4 else [])
+        variants.append(reg.ty(("tuple", reg.tu(name, fs))))
+    variants = list(dict.fromkeys(variants))
+    parent = reg.ty(("union", tuple(variants))) if len(variants) > 1 else variants[0]
+    musts = [rng.choice(leaves), field_type()]
+    qs = []
+    for m in musts:
+        qs.append(("filter", parent, idx, m))
+    qs.append(("unionids", variants[0], parent, rng.choice(leaves)))
+    feat = dict(g.feat)
+    return reg, qs, feat
+
+
+TEMPLATES = {"shared": gen_shared_component_case, "partial_rec": gen_partial_vs_recursive_case, "filter": gen_filter_case}
 
 
 def queries_for(rng, roots, nq):
@@ -408,6 +440,13 @@ def union_under_tuple(reg):
     return False
 
 
+def query_ids(q):
+    """the type ids a query mentions (the field index of a `filter` query is not one)"""
+    if q[0] == "filter":
+        return [q[1], q[3]]
+    return list(q[1:])
+
+
 def oracle_checks(qs, rs):
     """the checks the REAL answers oblige the semantics to pass"""
     checks, meta = [], []
@@ -419,6 +458,8 @@ def oracle_checks(qs, rs):
             checks.append("(disjoint %d %d)" % (q[1], q[2])); meta.append((q, r, (q[1], q[2])))
         elif kind in ("isect", "compl") and isinstance(r, list) and r[0] == "id":
             checks.append("(%s %d %d %s)" % (kind, q[1], q[2], r[1])); meta.append((q, r, (q[1], q[2])))
+        elif kind == "filter" and isinstance(r, list) and r[0] == "id":
+            checks.append("(filter %d %d %d %s)" % (q[1], q[2], q[3], r[1])); meta.append((q, r, (q[1], q[3])))
     return checks, meta
 
 
@@ -458,7 +499,7 @@ def run(ctx):
         cases.append((line, qs_of_line(line), {}, "corpus"))
     ncorpus = len(cases)
     n = ctx.n(3000, 60000)
-    profs = ["fo"] * 5 + ["fo_nocycle"] * 2 + ["partial"] * 2 + ["higher"] * 2 + ["shared"] * 2 + ["partial_rec"]
+    profs = ["fo"] * 5 + ["fo_nocycle"] * 2 + ["partial"] * 2 + ["higher"] * 2 + ["shared"] * 2 + ["partial_rec"] + ["filter"]
     for i in range(n):
         prof = profs[i % len(profs)]
         if prof in TEMPLATES:
@@ -492,7 +533,7 @@ def run(ctx):
                 dis_cases.append(i)
     nonterm_unmatched = 0
     for i in nonterminating:
-        qids = sorted({x for q in cases[i][1] for x in q[1:]})
+        qids = sorted({x for q in cases[i][1] for x in query_ids(q)})
         key = NONTERM_KEY if reaches_recursive_callable(reg_text(model[i]) or "", qids) else None
         obj = {"kind": "impl-violation", "statement": "check_type_relation does not terminate (stack overflow, process abort) on this type graph; the model runs out of fuel on the same queries",
                "case": cases[i][0], "model_output": model[i], "profile": cases[i][3], "matched_signature": key}
@@ -512,7 +553,7 @@ def run(ctx):
             continue
         rs = out["rs"]
         checks, meta = oracle_checks(qs, rs)
-        ids = sorted({x for q in qs for x in q[1:]})
+        ids = sorted({x for q in qs for x in query_ids(q)})
         doms = ["(dom %d)" % t for t in ids]
         olines.append("(oracle %s (depth 3) (cap 300) (checks %s %s))" % (reg_text(impl[i]), " ".join(doms), " ".join(checks)))
         ometa.append((i, ids, meta))
@@ -550,7 +591,7 @@ def run(ctx):
     for f in in_dom:
         i, stmt, q, r, cex, _ = f
         regtext = reg_text(impl[i])
-        key = classify_known(regtext, stmt, q[1], q[2]) if q else None
+        key = classify_known(regtext, stmt, q[1], q[3] if q and q[0] == "filter" else (q[2] if q else None)) if q else None
         obj = {"kind": "impl-violation", "statement": STATEMENTS.get(stmt, stmt), "query": list(q) if q else None,
                "real_answer": r, "counterexample_value": cex, "case": cases[i][0], "real_output": impl[i],
                "model_output": model[i], "profile": cases[i][3], "matched_signature": key}
@@ -669,6 +710,7 @@ STATEMENTS = {
     "isect": "intersect_keeps: a value of both a and b is not in intersect_types a b",
     "compl": "complement_keeps: a value of o that is not in n is not in compute_complement o n",
     "trans": "compat_trans: is_compatible a b and b c but not a c",
+    "filter": "filter_keeps: a value of the parent whose tested field is a value of the tested type is not in filter_variants_by_field's result",
 }
 
 
@@ -758,6 +800,9 @@ class RegView:
 # F25 (known): overlap/intersect incomplete where a callable or process type is reachable.  (Partial
 # types were part of it until fix 7ba69a0 = F25p; they no longer excuse a failure.)
 HIGHER = {"fn", "proc"}
+# F87: filter_variants_by_field keeps only the variants whose field type is
+# ASSIGNABLE to the tested type, dropping e.g. A[x: 'int | 'bin] after `.x ='int` succeeded
+FILTER_KEY = "F87"
 # F29 (fixed 2932723): unnamed partial accepted where a named partial is expected
 PARTIAL_NAME_KEY = "F29"
 
@@ -785,6 +830,8 @@ def classify_known(regtext, stmt, a, b):
         if kinds & HIGHER:
             return "F25"
         return "F24" if cyc else None
+    if stmt == "filter":
+        return FILTER_KEY
     if stmt == "compl":
         # F24: the operand `o` (= a) is recursive.  (F26, label-blind subtraction with a cyclic
         # operand, was fixed by f9e893e and no longer excuses anything.)
